@@ -503,8 +503,13 @@ func runSys(c *sysCase) (vs []vkit.Violation, classes []string, infra error) {
 			http.Error(w, "down", 503)
 			return
 		}
-		w.Header().Set("Content-Type", "text/plain; version=0.0.4")
 		body := farmBody(t)
+		if len(body) == 0 {
+			w.Header()["Content-Type"] = nil // an empty answer without a declared type
+			w.WriteHeader(200)
+			return
+		}
+		w.Header().Set("Content-Type", "text/plain; version=0.0.4")
 		if c.SlowTarget == id && r.Header.Get("Origin-Proxy") == "" && r.Header.Get("X-Verif-Probe") == "" {
 			farmMu.Lock()
 			slowServed++
@@ -1067,6 +1072,9 @@ func genSys(t *rapid.T, faults bool) *sysCase {
 			tg.Down = true
 		case 1:
 			tg.Series = int(c.MaxProc) + rapid.IntRange(0, 10).Draw(t, fmt.Sprintf("t%d-over", i)) // fits nowhere
+		case 2:
+			// an exporter that currently has nothing to report: 200, empty body, no Content-Type
+			tg.Series, tg.Dropped = 0, 0
 		}
 		if !tg.Down && int64(tg.Series+tg.Dropped) < c.MaxProc {
 			if used+int64(tg.Series+tg.Dropped) > budget {
